@@ -69,6 +69,7 @@ class Rig:
             self.cursor: dict[object, int] = {}             # endpoint -> frames already reported
             self.askers: dict[str, fakes.Endpoint] = {}
             self._want: list = []                           # endpoints to hand to outgoing connects
+            self.pending_connects: dict[str, list] = {}     # host -> futures of pending outgoing connects
             self.net.connect_handler = self._on_connect
             self.session = None
         except Exception:
@@ -92,7 +93,28 @@ class Rig:
     def _on_connect(self, host, port):
         if self._want:
             return self._want.pop(0)
-        return 'hang'          # connects started by the PotentialParents handler stay pending
+        # connects started by the PotentialParents handler stay pending until the harness lets them fail
+        f = self.loop.create_future()
+        self.pending_connects.setdefault(host, []).append(f)
+        return f
+
+    def fail_connects(self, host: str):
+        """The outgoing connection attempts to `host` fail: direct connect refused, and the server answers the
+        indirect attempt (ConnectToPeer) with CannotConnect.  Returns the number of attempts that were pending."""
+        from aioslsk.protocol.messages import ServerMessage, ConnectToPeer, CannotConnect
+        futs = [f for f in self.pending_connects.pop(host, []) if not f.done()]
+        if not futs:
+            return 0
+        mark = len(self.server.frames())
+        for f in futs:
+            f.set_exception(ConnectionRefusedError(f'{host} refused'))
+        self.settle()
+        for fr in self.server.frames()[mark:]:
+            m = ServerMessage.deserialize_request(fr)
+            if isinstance(m, ConnectToPeer.Request):
+                self.loop.create_task(self.network.on_message_received(CannotConnect.Response(ticket=m.ticket), self.network.server_connection))
+        self.settle()
+        return len(futs)
 
     def _init_search(self, share_tree: dict):
         from aioslsk.shares.manager import SharesManager
@@ -351,7 +373,7 @@ class Rig:
             return
         self.closed = True
         try:
-            for f in list(getattr(self, 'waiters', [])) + [w for ep in getattr(self, 'eps', {}).values() for w in getattr(ep, '_verif_waiters', []) + getattr(ep, '_verif_close_waiters', [])]:
+            for f in [x for fs in getattr(self, 'pending_connects', {}).values() for x in fs] + list(getattr(self, 'waiters', [])) + [w for ep in getattr(self, 'eps', {}).values() for w in getattr(ep, '_verif_waiters', []) + getattr(ep, '_verif_close_waiters', [])]:
                 if not f.done():
                     f.cancel()
         except Exception:
